@@ -24,25 +24,26 @@ RULE = ("random schemas of the generated family (nesting <= 3; key, multikey, '+
         "REJECT by a semantic (non-syntax) rule; distinct by hash of (schema XML, text).")
 ASSUMPTIONS = [
     "zcv/refload.py + zcv/model.py + zcv/refdt.py are the trusted reference (DESIGN appendix A)",
-    "unspecified zones U1-U4 and key-type zones are executed but not compared (counted per zone)",
+    "zones U1-U3 (which of several claiming children receives a header or key line) are decided by the resolution rule of the pinned tree -- first claiming child in declaration order -- and such cases are counted as pinned-resolution:*; zone U4 and the key-type zones are executed but not compared (counted per zone)",
     "the kind of ConfigurationError and its message are not compared (line numbers are C08's business)",
 ]
 
 
 def compare(ast, sm, schema, text, res=None):
     """-> (outcome, [(sig, detail)])"""
-    ref = refload.ref_load(ast, {loadcheck.MAIN: text}, loadcheck.MAIN, sm=sm)
+    ref = refload.ref_load(ast, {loadcheck.MAIN: text}, loadcheck.MAIN, sm=sm, pin=True)
     got = loadcheck.real_load(schema, text)
     out = []
     if ref.kind == "unspec":
         return ref, got, out
+    tag = ":pinned-resolution-" + "-".join(sorted(set(ref.pinned))) if ref.pinned else ""
     if got[0] == "internal":
         out.append(("internal:%s:%s" % (type(got[1]).__name__, got[2]),
                     "reference %r; raised %r" % (ref, got[1])))
     elif ref.kind == "accept" and got[0] != "ok":
-        out.append(("rejected-but-conforming", "raised %s: %s" % (type(got[1]).__name__, got[1])))
+        out.append(("rejected-but-conforming" + tag, "raised %s: %s" % (type(got[1]).__name__, got[1])))
     elif ref.kind == "reject" and got[0] == "ok":
-        out.append(("accepted-but-nonconforming:%s" % ref.rule, "reference %r" % ref))
+        out.append(("accepted-but-nonconforming:%s%s" % (ref.rule, tag), "reference %r" % ref))
     return ref, got, out
 
 
@@ -99,6 +100,8 @@ def run_shard(spec):
         for text in texts:
             res.evaluations += 1
             ref, got, fl = compare(ast, sm, schema, text)
+            for z in set(ref.pinned):
+                counters["pinned-resolution:" + z] += 1
             if ref.kind == "unspec":
                 counters["unspecified:" + ref.zone] += 1
                 counters["verdict:unspec"] += 1
